@@ -57,6 +57,36 @@ pub(crate) struct LoopInner<'l, Data> {
     pending_action: Cell<PostAction>,
 }
 
+impl<'l, Data> LoopInner<'l, Data> {
+    /// Unregister `disp` if the source list no longer holds it under `reg_token`
+    ///
+    /// Used for a source whose event processing failed: it may have been removed from
+    /// within its own callback first, in which case nothing else will unregister it.
+    fn unregister_if_removed(
+        &self,
+        reg_token: TokenInner,
+        disp: &(dyn crate::sources::EventDispatcher<Data> + 'l),
+    ) {
+        let removed = self
+            .sources
+            .borrow()
+            .get(reg_token)
+            .ok()
+            .map(|entry| entry.source.is_none())
+            .unwrap_or(true);
+        if removed {
+            let mut poll = self.poll.borrow_mut();
+            if let Err(e) = disp.unregister(
+                &mut poll,
+                &mut self.sources_with_additional_lifecycle_events.borrow_mut(),
+                RegistrationToken::new(reg_token),
+            ) {
+                warn!("Failed to unregister source from the polling system: {e:?}",);
+            }
+        }
+    }
+}
+
 /// A handle to an event loop
 ///
 /// This handle allows you to insert new sources and idles in this event loop,
@@ -541,7 +571,15 @@ impl<'l, Data> EventLoop<'l, Data> {
                     .inner
                     .pending_action
                     .replace(PostAction::Continue);
-                let mut ret = ret?;
+                let mut ret = match ret {
+                    Ok(ret) => ret,
+                    Err(e) => {
+                        // the source may have removed itself from within its callback before
+                        // failing, it still has to be unregistered
+                        self.handle.inner.unregister_if_removed(reg_token, &*disp);
+                        return Err(e);
+                    }
+                };
                 if let PostAction::Continue = ret {
                     ret = pending_action;
                 }
